@@ -95,6 +95,16 @@ def cases(rng, quick):
     add(lambda i: g.mcall(i.e(c({'a': 1})), 'set', i.e(c('b')), i.e(c(3))), data=[1])
     add(lambda i: g.bn('->', g.call('let', x=i.e(c(1)), y=i.e(c(2))), g.lst(i.e(g.var('x')), i.e(g.var('y')))))
     add(lambda i: g.bn('->', g.call('with', i.e(c(1)), i.e(c(2))), g.bn('+', i.e(g.var('1')), i.e(g.var('2')))))
+    # method calls on a yaqlized host object take their own route through the library: same order
+    add(lambda i: g.mcall(g.host(), 'hm', i.e(c(1)), i.e(c(2)), note=i.e(c(3))))
+    add(lambda i: g.mcall(g.host(), 'hm', i.e(c(1)), b=i.e(c(2)), a=i.e(c(3))))
+    add(lambda i: g.safemcall(g.host(), 'hm', i.e(c(1)), i.e(c(2))))
+    add(lambda i: g.mcall(g.host(), 'hm', note=i.e(c(1))))
+    # generate() handed out element by element: nothing runs for elements nobody asks for
+    for k in (0, 1, 2, 3):
+        add(lambda i, k=k: g.mcall(g.call('generate', i.e(c(0)), g.bn('<', i.l(X), c(5)), g.bn('+', i.l(X), c(1))), 'take', c(k)), note='lazy-generate')
+        add(lambda i, k=k: g.mcall(g.call('generate', i.e(c(1)), g.bn('<', i.l(X), c(3)), g.bn('*', i.l(X), c(2)), g.bn('+', i.l(X), c(10))), 'take', c(k)), note='lazy-generate')
+    add(lambda i: g.mcall(g.call('generate', i.e(c(0)), g.bn('<', i.l(X), c(5)), g.bn('+', i.l(X), c(1))), 'first'), note='lazy-generate')
     # several named arguments are evaluated in the order they are written, whatever their names
     add(lambda i: g.bn('->', g.call('let', zz=i.e(c(1)), b=i.e(c(2)), a=i.e(c(3))), g.lst(g.var('a'), g.var('b'), g.var('zz'))))
     add(lambda i: g.call('dict', z=i.e(c(1)), a=i.e(c(2)), m=i.e(c(3))))
@@ -167,11 +177,17 @@ def run(rep, tier, seed, keep=False):
     try:
         rng = random.Random(seed * 4241 + 11)
         real = g.Real()
+        from yaql import yaqlization
+
+        class HostProbe(object):
+            def hm(self, *a, **k):
+                return list(a) + [k[n] for n in ('a', 'b', 'note') if n in k]
+        host = yaqlization.yaqlize(HostProbe())
         events = []
         desc = {}
         for ast, data, eager, note in cases(rng, quick):
             text = g.render(ast)
-            res, log = real.run(text, data)
+            res, log = real.run(text, data, raw_context={'h': host})
             i = len(events)
             events.append(g.event(i, ast, data, res, log=log, eager=eager, mode='log'))
             desc[i] = (text, data, note, res, log)
